@@ -1350,4 +1350,47 @@ theorem C11_output_legacy_clean (inv : Policy) (props : List (OutProp κ α)) :
   rw [h]
   cases parseProps inv props <;> rfl
 
+/-! ### non-vacuity of the hypotheses -/
+
+def exField : Field Nat Nat :=
+  { name := 0, required := false, default := some 7, onError := none, parse := fun n => if n < 5 then some n else none }
+
+def exReq : Field Nat Nat :=
+  { name := 1, required := true, default := none, onError := none, parse := fun n => if n < 5 then some n else none }
+
+/-- the hypotheses of `C11_fields_ff_general` / `C11_fields_df_general` hold for a declaration and data in
+which something *is* excluded, something is kept, and the two strategies really differ in insertion order -/
+example : ([(0, 9), (1, 3), (2, 8)].map (·.1) : List Nat).Nodup ∧ ([exField, exReq].map (·.name)).Nodup ∧
+    dataKept .exclude [exField, exReq] (.typed fun n => if n < 5 then some n else none) (0, 9) = false ∧
+    dataKept .exclude [exField, exReq] (.typed fun n => if n < 5 then some n else none) (1, 3) = true ∧
+    dataKept .exclude [exField, exReq] (.typed fun n => if n < 5 then some n else none) (2, 8) = false ∧
+    parseDataFF .exclude [exField, exReq] (.typed fun n => if n < 5 then some n else none) [(0, 9), (1, 3), (2, 8)]
+      = .ok [(0, 7), (1, 3)] ∧
+    parseDataDF .exclude [exField, exReq] (.typed fun n => if n < 5 then some n else none) [(0, 9), (1, 3), (2, 8)]
+      = .ok [(0, 7), (1, 3)] ∧
+    parseDataDF .throw ([exField, exReq].map (Field.strictified .exclude)) (.typed fun n => if n < 5 then some n else none)
+      [(1, 3)] = .ok [(1, 3), (0, 7)] := by
+  refine ⟨by decide, by decide, rfl, rfl, rfl, rfl, rfl, rfl⟩
+
+/-- the hypotheses of `C11_required_never_excluded_*` are satisfiable (and then the parse does fail) -/
+example : exReq ∈ [exField, exReq] ∧ lookup exReq.name [(1, 9)] = some 9 ∧ exReq.required = true ∧
+    Offending exReq.parse 9 = true ∧ exReq.policy .exclude = .exclude ∧
+    parseDataFF .exclude [exField, exReq] .ignore [(1, 9)] = .error (.parse 1) := by
+  refine ⟨by simp, rfl, rfl, rfl, rfl, rfl⟩
+
+/-- `C11_set_exclude`: a filtered set iterated in another order -/
+example : ([3, 1] : List Nat).Perm (removeOffenders (fun n => if n < 5 then some (n + 10) else none) [1, 9, 3]) ∧
+    parseSeq .exclude (fun n => if n < 5 then some (n + 10) else none) [1, 9, 3] = .ok [11, 13] ∧
+    parseSeq .throw (fun n => if n < 5 then some (n + 10) else none) [3, 1] = .ok [13, 11] := by
+  refine ⟨?_, rfl, rfl⟩
+  show ([3, 1] : List Nat).Perm [1, 3]
+  exact List.Perm.swap 1 3 []
+
+/-- `C11_nested_clean_input` is about a non-trivial situation: a nested value that converts strictly -/
+example :
+    let W : World (List Nat) := { asSeq := fun _ v => some (v.map fun n => [n]), mkSeq := fun _ xs => xs.flatten,
+                                  asMap := fun _ => none, mkMap := fun _ => [] }
+    parseTy W Opts.strict (.seq .list (.leaf fun v => if v.all (· < 5) then some v else none)) [1, 2] = some [1, 2] := by
+  rfl
+
 end Utv.C11
